@@ -55,7 +55,9 @@ static std::string run_export(const Workload& w, const std::string& dir) {
     std::unique_ptr<CDNS::CdnsExporter> ex;
     if (w.okind == 0) ex.reset(new CDNS::CdnsExporter(fp, base, (CDNS::CborOutputCompression)w.comp));
     else ex.reset(new CDNS::CdnsExporter(fp, ofd(base), (CDNS::CborOutputCompression)w.comp));
+    bool abandoned = false;
     for (auto& o : w.ops) {
+      if (abandoned) break;
       switch (o.kind) {
         case 0: ex->buffer_qr(o.qr, o.st); break;
         case 1: ex->buffer_aec(o.aec, o.st); break;
@@ -66,12 +68,18 @@ static std::string run_export(const Workload& w, const std::string& dir) {
           // a rotation that the library must refuse (destination cannot be opened), caught by the application, followed by a good one
           try { if (w.okind == 0) ex->rotate_output(std::string("/nonexistent-vf-directory/x"), false); else ex->rotate_output((int)-1, false); outs.push_back("!no-exception"); }
           catch (const CDNS::CborOutputException&) {}
-          try { std::string b; next(b); if (w.okind == 0) ex->rotate_output(b, false); else ex->rotate_output(ofd(b), false); } catch (const std::exception&) { outs.push_back("!second-rotation-threw"); }
+          if (o.exp) {
+            // the application gives up on this exporter: it is destroyed a little later, while other threads go on opening outputs
+            abandoned = true;
+            for (int y = 0; y < 50; y++) std::this_thread::yield();
+          } else {
+            try { std::string b; next(b); if (w.okind == 0) ex->rotate_output(b, false); else ex->rotate_output(ofd(b), false); } catch (const std::exception&) { outs.push_back("!second-rotation-threw"); }
+          }
           break;
         }
       }
     }
-    ex->write_block();
+    if (!abandoned) ex->write_block();
   }
   std::string res;
   for (auto& p : outs) { if (!p.empty() && p[0] == '!') { res += p + ";"; continue; } std::string b; read_file(p, b); res += std::to_string(b.size()) + ":" + std::to_string(fnv1a(b.data(), b.size())) + ";"; ::unlink(p.c_str()); }
@@ -154,7 +162,7 @@ static Workload gen_workload(Chooser& c, const std::string& scratch, unsigned si
         if (o.kind == 0) o.qr = adapt::generic_qr(gen::gen_qr(c, pools, tc, tps, ro));
         else if (o.kind == 1) o.aec = adapt::generic_aec(gen::gen_aec(c, pools));
         else if (o.kind == 2) o.mm = adapt::generic_mm(gen::gen_mm(c, pools, tc, tps, ro));
-        else if (o.kind == 4) o.exp = c.coin();
+        else if (o.kind == 4 || o.kind == 5) o.exp = c.coin();
         w.ops.push_back(o);
       }
       break;
